@@ -55,7 +55,9 @@ enum Act {
 struct C16;
 
 // the fourth key has an empty message id and is approved nowhere
-const KEYS: [(&str, &str); 4] = [("c", "1"), ("c", "2"), ("d", "1"), ("c", "")];
+// keys 3.. are approved nowhere: an empty message id, and three "siblings" of key 0 whose chain and
+// id, joined by '_', '-' or ':', give the same string as key 0's
+const KEYS: [(&str, &str); 7] = [("c", "1_x-y:z"), ("c", "2"), ("d", "1"), ("c", ""), ("c_1", "x-y:z"), ("c-1_x", "y:z"), ("c:1_x-y", "z")];
 const APPROVABLE: usize = 2; // the third key is never approved
 
 /// the two source addresses differ only in letter case
@@ -95,7 +97,7 @@ impl Scenario for C16 {
                 &soroban_sdk::xdr::ScAddress::Account(soroban_sdk::xdr::AccountId(soroban_sdk::xdr::PublicKey::PublicKeyTypeEd25519(soroban_sdk::xdr::Uint256(raw)))),
             )
         };
-        (Ctx { w, gw, keys, set, apps: vec![example, mini, twin], third: operator.clone() }, Model { advances: 0, status: vec![Status::NotApproved; 4], mini_count: 0 })
+        (Ctx { w, gw, keys, set, apps: vec![example, mini, twin], third: operator.clone() }, Model { advances: 0, status: vec![Status::NotApproved; 7], mini_count: 0 })
     }
 
     fn actions(&self, _ctx: &Ctx, m: &Model) -> Vec<Act> {
@@ -127,7 +129,7 @@ impl Scenario for C16 {
             v.push(Act::ThirdPartyValidate { key, src: 0, payload: 0 });
         }
         for app in 0..2u8 {
-            for key in 0..4usize {
+            for key in 0..7usize {
                 for src in 0..2u8 {
                     for payload in 0..2u8 {
                         if key >= 2 && (src != 0 || payload != 0) { continue; }
@@ -259,7 +261,7 @@ fn main() {
         let mut o = Opts::new(tier, if tier == "thorough" { 12 } else { 8 });
         o.min_depth = 3;
         o.xcheck = tier == "thorough";
-        o.rule = "all sequences over gateway approvals (2 message ids x destination {example app, minimal app} x 2 source addresses x 2 payloads, plus the account-type address made of the example app's 32 bytes; two-message batches incl. one led by a message from another source chain) and deliveries app.execute(chain, id, source address, payload) for both apps x 4 ids (one on another chain, one empty, approved nowhere else) x 2 source addresses x 2 payloads; so never-approved, approved-for-the-other-app, other payload / source address / id / chain, delivered twice and conforming deliveries all occur; a third party asking the gateway directly (refused, must change nothing); explored to fixpoint of the finite status graph".into();
+        o.rule = "all sequences over gateway approvals (2 message ids x destination {example app, minimal app} x 2 source addresses x 2 payloads, plus the account-type address made of the example app's 32 bytes; two-message batches incl. one led by a message from another source chain) and deliveries app.execute(chain, id, source address, payload) for both apps x 7 ids (one on another chain; four approved nowhere: an empty id and three whose chain and id joined by '_', '-' or ':' coincide with an approvable key's) x 2 source addresses x 2 payloads; so never-approved, approved-for-the-other-app, other payload / source address / id / chain, delivered twice and conforming deliveries all occur; a third party asking the gateway directly (refused, must change nothing); explored to fixpoint of the finite status graph".into();
         (C16, o)
     });
 }
